@@ -6,7 +6,10 @@ From Yv Require Export Common.Base C19.Model C19.Spec.
      - a script with what the shell showed on the simulated and on the real OS. *)
 Inductive case :=
 | CSys (tree : list init_entry) (um : N) (ops : list op) (v r : sysobs)
-| CScript (v r : scriptobs).
+| CScript (v r : scriptobs)
+  (* a script of real built-ins only: simulated OS, the harness's shell on the
+     real OS, and the yash3 binary built from /repo on the real OS *)
+| CScript3 (v r y : scriptobs).
 
 Definition has_out (l : list res) : bool :=
   existsb (fun x => match x with ROut => true | _ => false end) l.
@@ -39,6 +42,17 @@ Definition run_case (c : case) : verdict :=
       match script_oracle v r with
       | Some k => (2 + k)%N
       | None => 0%N
+      end
+  | CScript3 v r y =>
+      (* the property, literally: simulated OS against the real binary *)
+      match script_oracle v y with
+      | Some k => (2 + k)%N
+      | None =>
+          (* and the real side of stream 2 is the same shell as the binary *)
+          match script_oracle r y with
+          | Some _ => 25%N
+          | None => 0%N
+          end
       end
   end.
 
